@@ -40,6 +40,7 @@ type wParams struct {
 	Timeout   int    `json:"timeout,omitempty"` // seconds; 0 = default 20
 	Columns   int    `json:"columns,omitempty"`
 
+	RawClient bool `json:"rawclient,omitempty"` // uploads: raw sending client built from product functions instead of the filter
 	FdLimit int   `json:"fdlimit,omitempty"` // RLIMIT_NOFILE during the execution (0 = unchanged)
 
 	DstRoot string `json:"dstroot,omitempty"` // use (and keep) this destination directory instead of a fresh one
@@ -262,6 +263,12 @@ type world struct {
 	uploadRes   <-chan error
 
 	hookErr func(name string, args ...any) error
+	// hostile-peer support (C09, C12): doctored source records instead of a scan of the source tree,
+	// and a raw sending client assembled from the product's own functions instead of the filter
+	srcOverride []*sourceFile
+	rawClient   bool
+	rawErr      error
+	rawDone     bool
 	pre     map[string]string // full snapshot of the destination before the transfer
 }
 
@@ -277,6 +284,7 @@ type worldResult struct {
 	ServerFail   string // decoded fail message the server sent
 	Dst          map[string]string
 	DstFull      map[string]string
+	Outside      map[string]string // everything in the execution's scratch root except the destination
 	Alive        []string
 	SrvDoneAt    time.Duration
 	End          time.Duration
@@ -421,9 +429,11 @@ func buildWorld(p wParams) *world {
 		cols = 100
 	}
 	vs.SetFlag("win", p.WinNL == "client")
-	w.filter = NewTrzszFilter(w.keys, w.term, w.c2s[0], w.s2c[0], TrzszOptions{TerminalColumns: cols})
+	if !p.RawClient {
+		w.filter = NewTrzszFilter(w.keys, w.term, w.c2s[0], w.s2c[0], TrzszOptions{TerminalColumns: cols})
+	}
 	vs.SetFlag("win", false)
-	if p.Tunnel {
+	if p.Tunnel && w.filter != nil {
 		w.filter.SetTunnelConnector(func(port int) net.Conn { return dialOrNil(port, "client") })
 	}
 	return w
@@ -535,6 +545,9 @@ func (w *world) startServer() {
 	}
 	args := &tszArgs{baseArgs: w.baseArgs(), File: paths}
 	files, err := checkPathsReadable(args.File, args.Directory)
+	if w.srcOverride != nil {
+		files, err = w.srcOverride, nil
+	}
 	if err != nil {
 		w.srvErr, w.srvDone = err, true
 		return
@@ -558,8 +571,39 @@ func (w *world) startServer() {
 	})
 }
 
+// startRawUploadClient replaces the filter by the body of TrzszFilter.uploadFiles without the dialogs,
+// sending the given (possibly doctored) records through the real sendFiles. Used where the property is
+// about the receiving server and the sender is only environment.
+func (w *world) startRawUploadClient(files []*sourceFile) {
+	t := newTransfer(w.c2s[0], nil, false, nil)
+	wrapTransferInput(t, w.s2c[0], false)
+	vs.Go("raw-client", func() {
+		err := func() error {
+			if err := t.sendAction(true, nil, false); err != nil {
+				return err
+			}
+			if _, err := t.recvConfig(); err != nil {
+				return err
+			}
+			names, err := t.sendFiles(files, nil)
+			if err != nil {
+				return err
+			}
+			return t.clientExit(formatSavedFiles(names, ""))
+		}()
+		if err != nil {
+			t.clientError(err)
+		}
+		t.cleanup()
+		w.rawErr, w.rawDone = err, true
+	})
+}
+
 // prepareClient arms the client for the coming transfer (what the user would do in the dialogs).
 func (w *world) prepareClient() {
+	if w.filter == nil {
+		return
+	}
 	if w.p.Dir == "down" {
 		w.filter.SetDefaultDownloadPath(w.dstRoot)
 		return
@@ -628,6 +672,7 @@ func (w *world) result(s *vs.Sched) *worldResult {
 	}
 	r.Dst = snapshot(w.dstRoot)
 	r.DstFull = snapshotFull(w.dstRoot)
+	r.Outside = outsideSnapshot(w.root)
 	return r
 }
 
@@ -696,16 +741,21 @@ func runWorld(p wParams, cfg vs.Config, prefix, prefixN []int, extra func(w *wor
 			extra(w)
 		}
 		w.startServer()
-		res0Quiet := vs.WaitSettled(func() bool { return w.srvDone && w.srvStarted && !w.filter.IsTransferringFiles() }, 3000)
+		res0Quiet := vs.WaitSettled(func() bool {
+			if w.filter == nil {
+				return w.srvDone && w.rawDone
+			}
+			return w.srvDone && w.srvStarted && !w.filter.IsTransferringFiles()
+		}, 3000)
 		vs.Peek(func() {
 			res = w.result(nil)
-			res.Transferring = w.filter.IsTransferringFiles()
+			res.Transferring = w.filter != nil && w.filter.IsTransferringFiles()
 		})
 		res.End = vs.Elapsed()
 		res.Alive = vs.AliveNow()
 		res.Quiet = res0Quiet
 	})
-	if w == nil || (res == nil && w.filter == nil) {
+	if w == nil || (res == nil && w.keys == nil) {
 		panic("harness: building the world failed: " + s.CrashString() + " " + s.Diverged)
 	}
 	if res == nil {
